@@ -104,7 +104,7 @@ theorem aexit_post (ig : Bool) (d : Int) (s s1 : TS) (r : Res)
           have hnm : m ∉ s1.deadlines := hst m hm
           have hmd : m ≠ d := by intro h; apply hnm; rw [hds1, h]; simp
           rw [aexit_stale _ _ _ _ _ rfl hm hmd hnm]
-          simp only [reduceCtorEq, if_false]
+          simp only []
           refine base _ (Or.inl ⟨hdel, ?_⟩)
           intro m' h'; rw [hmk, hm] at h'; simp at h'; subst h'
           rw [hdz]; intro hc; apply hnm; rw [hds1]; simp [hc]
